@@ -105,6 +105,8 @@ def _run_verus(path, cfg, extra=()):
     rlimit = str(cfg.get("rlimit", 200))
     cmd = ["verus", path, "--output-json", "--time", "--error-format=json",
            "--multiple-errors", "20", "--rlimit", rlimit, "--num-threads", str(cfg.get("threads", 8))] + list(extra)
+    for m in cfg.get("verify_modules", []):
+        cmd += ["--verify-module", m]
     t0 = time.monotonic()
     p = subprocess.run(cmd, cwd=BUILD, stdout=subprocess.PIPE, stderr=subprocess.PIPE, text=True,
                        timeout=cfg.get("timeout", 1500))
